@@ -39,8 +39,9 @@ VARIABLES
     nextCmd,     \* next command of the burst to transmit for the first time            (DESIGN: q)
     \* @type: Set({sq: Int, cmd: Int, tries: Int, deadline: Int});
     outst,       \* the unanswered commands                                              (DESIGN: out)
-    \* @type: Seq(Int);
-    cbq,         \* commands whose ok reply was accepted and whose callback has not run yet
+    \* @type: Int -> Int;
+    cbq,         \* per command: accepted ok replies whose callback has not run yet (a bag: the order in which
+                 \* queued callbacks run is not part of the property, a callback queued twice is)
     \* @type: Int -> Int;
     doneCnt,     \* per command: callbacks run                                           (DESIGN: done)
     \* @type: Int -> Int;
@@ -63,12 +64,12 @@ SuccSeq(s) == IF s + 1 = SeqMod THEN 0 ELSE s + 1           \* (s + 1) % SeqMod 
 \* @type: Set(Int);
 OutCmds == { e.cmd : e \in outst }
 \* @type: Set(Int);
-Queued == { cbq[i] : i \in DOMAIN cbq }
+Queued == { c \in Cmds : cbq[c] > 0 }
 
 \* values for the TLC cfg
 ExtraMixed == [c \in Cmds |-> IF c = 2 THEN 1 ELSE 0]
 
-Init == /\ nextCmd = 1 /\ outst = {} /\ cbq = <<>> /\ doneCnt = Zero /\ txCnt = Zero
+Init == /\ nextCmd = 1 /\ outst = {} /\ cbq = Zero /\ doneCnt = Zero /\ txCnt = Zero
         /\ seqCtr = 0 /\ now = 0 /\ pc = "run" /\ culprit = 0
 
 \* ------------------------------------------------------------------ sending
@@ -91,7 +92,7 @@ SendNew == /\ CanSend /\ ~SeqInUse
 \* an ok reply whose number is in the table: the entry is popped BY SEQUENCE NUMBER, its callback queued
 ReceiveOk == /\ pc = "run"
              /\ \E e \in outst : /\ outst' = outst \ {e}
-                                 /\ cbq' = Append(cbq, e.cmd)
+                                 /\ cbq' = [cbq EXCEPT ![e.cmd] = @ + 1]
              /\ UNCHANGED <<nextCmd, doneCnt, txCnt, seqCtr, now, pc, culprit>>
 \* an ok reply whose number is not in the table (stale, duplicate, earlier burst) and any retryable reply: ignored
 ReceiveStale == pc = "run" /\ UNCHANGED vars
@@ -99,9 +100,10 @@ ReceiveRetryable == pc = "run" /\ UNCHANGED vars
 ReceiveFatal == /\ pc = "run" /\ pc' = "fatal"
                 /\ UNCHANGED <<nextCmd, outst, cbq, doneCnt, txCnt, seqCtr, now, culprit>>
 
-RunCallback == /\ pc = "run" /\ cbq # <<>>
-               /\ doneCnt' = [doneCnt EXCEPT ![Head(cbq)] = @ + 1]
-               /\ cbq' = Tail(cbq)
+RunCallback == /\ pc = "run"
+               /\ \E c \in Cmds : /\ cbq[c] > 0
+                                  /\ doneCnt' = [doneCnt EXCEPT ![c] = @ + 1]
+                                  /\ cbq' = [cbq EXCEPT ![c] = @ - 1]
                /\ UNCHANGED <<nextCmd, outst, txCnt, seqCtr, now, pc, culprit>>
 
 \* ------------------------------------------------------------------ time-outs
@@ -123,13 +125,13 @@ Tick == /\ pc = "run" /\ now' = now + 1
         /\ UNCHANGED <<nextCmd, outst, cbq, doneCnt, txCnt, seqCtr, pc, culprit>>
 
 \* ------------------------------------------------------------------ the end of a burst, and the next one
-Return == /\ pc = "run" /\ nextCmd > NCmd /\ outst = {} /\ cbq = <<>>
+Return == /\ pc = "run" /\ nextCmd > NCmd /\ outst = {} /\ cbq = Zero
           /\ pc' = "returned"
           /\ UNCHANGED <<nextCmd, outst, cbq, doneCnt, txCnt, seqCtr, now, culprit>>
 
 \* the sequence counter and the clock are kept, everything else starts afresh
 NextBurst == /\ pc # "run"
-             /\ pc' = "run" /\ nextCmd' = 1 /\ outst' = {} /\ cbq' = <<>> /\ doneCnt' = Zero /\ txCnt' = Zero
+             /\ pc' = "run" /\ nextCmd' = 1 /\ outst' = {} /\ cbq' = Zero /\ doneCnt' = Zero /\ txCnt' = Zero
              /\ culprit' = 0
              /\ UNCHANGED <<seqCtr, now>>
 
@@ -149,12 +151,11 @@ ConstOK == /\ NCmd \in Nat /\ NCmd <= CmdBound
 TypeOK ==
     /\ pc \in {"run", "returned", "timeout", "fatal"}
     /\ 1 <= nextCmd /\ nextCmd <= NCmd + 1
-    /\ DOMAIN doneCnt = Cmds /\ DOMAIN txCnt = Cmds
-    /\ \A c \in Cmds : doneCnt[c] >= 0 /\ txCnt[c] >= 0
+    /\ DOMAIN doneCnt = Cmds /\ DOMAIN txCnt = Cmds /\ DOMAIN cbq = Cmds
+    /\ \A c \in Cmds : doneCnt[c] >= 0 /\ txCnt[c] >= 0 /\ cbq[c] >= 0
     /\ \A e \in outst : /\ 0 <= e.sq /\ e.sq < SeqMod
                         /\ 1 <= e.cmd /\ e.cmd <= NCmd
                         /\ e.tries >= 1
-    /\ \A i \in DOMAIN cbq : 1 <= cbq[i] /\ cbq[i] <= NCmd
     /\ 0 <= seqCtr /\ seqCtr < SeqMod
     /\ 0 <= culprit /\ culprit <= NCmd
 
@@ -174,11 +175,10 @@ OneEntryPerCommand == \A e1, e2 \in outst : e1.cmd = e2.cmd => e1 = e2
 \* the table's try counter is the number of datagrams sent for the command
 Counted == \A e \in outst : e.tries = txCnt[e.cmd]
 \* a command is queued for its callback at most once
-QueuedOnce == \A i, j \in DOMAIN cbq : cbq[i] = cbq[j] => i = j
+QueuedOnce == \A c \in Cmds : cbq[c] <= 1
 \* commands not yet sent: nothing transmitted, nothing run, not in the table, not queued
-Unsent == /\ \A c \in Cmds : c >= nextCmd => txCnt[c] = 0 /\ doneCnt[c] = 0
+Unsent == /\ \A c \in Cmds : c >= nextCmd => txCnt[c] = 0 /\ doneCnt[c] = 0 /\ cbq[c] = 0
           /\ \A e \in outst : e.cmd < nextCmd
-          /\ \A i \in DOMAIN cbq : cbq[i] < nextCmd
 \* a command that was sent is in exactly one of three places: unanswered, queued for its callback, called back
 Accounted == \A c \in Cmds : c < nextCmd =>
                 /\ txCnt[c] >= 1
@@ -186,7 +186,7 @@ Accounted == \A c \in Cmds : c < nextCmd =>
                    \/ c \notin OutCmds /\ c \in Queued /\ doneCnt[c] = 0
                    \/ c \notin OutCmds /\ c \notin Queued /\ doneCnt[c] = 1
 \* how a burst ends
-Returned == pc = "returned" => nextCmd > NCmd /\ outst = {} /\ cbq = <<>>
+Returned == pc = "returned" => nextCmd > NCmd /\ outst = {} /\ cbq = Zero
 TimedOut == /\ pc = "timeout" => \E e \in outst : e.cmd = culprit /\ e.tries >= MaxTries
             /\ pc # "timeout" => culprit = 0
 
@@ -198,10 +198,6 @@ TimeoutHonest == pc = "timeout" => /\ 1 <= culprit /\ culprit <= NCmd
                                    /\ txCnt[culprit] = MaxTries /\ doneCnt[culprit] = 0
                                    /\ culprit \notin Queued
 
-\* for TLC: terminal states stutter (so that a deadlock would be a state in which a running burst cannot move),
-\* and the clock is bounded by a state constraint
-Stutter == pc # "run" /\ UNCHANGED vars
-TlcNext == Next \/ Stutter
-TlcSpec == Init /\ [][TlcNext]_vars
+\* for TLC: the clock is bounded by a state constraint (everything else is finite by the invariants)
 ClockBound == now <= 5
 =============================================================================
